@@ -11,7 +11,7 @@ RULE = ("(a) aln_param_init enumerated exhaustively over 2 kinds x 6 type consta
         "value vectors against a model transcribed from README/aln_param.c (expected FAIL for protein types on nucleotides and "
         "nucleotide types on protein); (b) end to end: for every documented --type word (and no --type) x 8 override subsets, "
         "the aln_param in effect inside kalign_run - observed through the guarded PARAMS hook for the library and through "
-        "KALIGN_VERIF_DUMP for the CLI binary - equals the model's, and mismatching words are rejected; 84 of the library cells are repeated as the second alignment of a process whose first one gave all three penalties (nothing of an earlier call may stay in effect); (c) Hypothesis: generated "
+        "KALIGN_VERIF_DUMP for the CLI binary - equals the model's, and mismatching words are rejected; 96 of the library cells are repeated through the array interface kalign(), and 84 as the second alignment of a process whose first one gave all three penalties (nothing of an earlier call may stay in effect); (c) Hypothesis: generated "
         "input x type x subset: run with the type's defaults given explicitly == default run, CLI word run == library constant "
         "run (rows identical); a case is discriminating (non-trivial) when a different parameter set changes the alignment of "
         "that input. Non-trivial/distinct = distinct grid cells + discriminating generated cases.")
@@ -160,8 +160,14 @@ def run_lib_cell(g):
         # an earlier alignment in the same process, same input and type, other penalties: nothing of it may remain in effect
         pv = g["prev"]
         pre = ["read 1 1 %s" % fp, "run 1 1 %d %r %r %r" % (g["type"], float(pv[0]), float(pv[1]), float(pv[2])), "free 1"]
-    pr = runner.run_probe(["hook 0 0 1"] + pre + ["read 0 1 %s" % fp, "run 0 1 %d %s" % (g["type"], _pen_tokens(g)), "free 0"])
-    at = 2 + len(pre)
+    if g.get("route") == "arr":
+        # the array interface kalign(): same parameters expected as through kalign_run
+        sp = wd.write(runner.seqset_bytes(seqs), ".seqs")
+        pr = runner.run_probe(["hook 0 0 1"] + pre + ["arr %s 1 %d %s" % (sp, g["type"], _pen_tokens(g))])
+        at = 1 + len(pre)
+    else:
+        pr = runner.run_probe(["hook 0 0 1"] + pre + ["read 0 1 %s" % fp, "run 0 1 %d %s" % (g["type"], _pen_tokens(g)), "free 0"])
+        at = 2 + len(pre)
     if pr.ended.bad or pr.steps is None or len(pr.steps) < at + 1:
         return engine.violation({"what": "process failure", **pr.ended.brief(), "grid": g}, kind="crash")
     s = pr.steps[at]
@@ -236,6 +242,8 @@ def extra(tier, seed, stats):
         c = {"leg": "lib", "biotype": bt, "type": t, "gpo": v[0] if sub & 1 else -1.0, "gpe": v[1] if sub & 2 else -1.0,
              "tgpe": v[2] if sub & 4 else -1.0}
         _account(stats, {"grid": c}, run_lib_cell(c), out)
+        if v is VALS[1]:
+            _account(stats, {"grid": dict(c, route="arr")}, run_lib_cell(dict(c, route="arr")), out)
         if v is VALS[1] and sub != 7:
             # the same cell as the second alignment of a process whose first one gave all three penalties
             _account(stats, {"grid": dict(c, prev=[55.5, 11.25, 3.5])}, run_lib_cell(dict(c, prev=[55.5, 11.25, 3.5])), out)
@@ -243,7 +251,7 @@ def extra(tier, seed, stats):
         c = {"leg": "cli", "biotype": bt, "word": w, "gpo": v[0] if sub & 1 else -1.0, "gpe": v[1] if sub & 2 else -1.0,
              "tgpe": v[2] if sub & 4 else -1.0}
         _account(stats, {"grid": c}, run_cli_cell(c), out)
-    stats.extra["exhaustive_grid_cells"] = len(cells) + 192 + 84 + 192
+    stats.extra["exhaustive_grid_cells"] = len(cells) + 192 + 96 + 84 + 192
     return out
 
 
